@@ -282,6 +282,11 @@ loop:
 	case Shutdown:
 		return errorx.ErrEngineShutdown
 	}
+	if !c.opened {
+		// The connection has been closed inside OnTraffic (failed write,
+		// EventLoop.Close), its fd is gone, stop reading from it.
+		return nil
+	}
 	_, _ = c.inboundBuffer.Write(c.buffer)
 	c.buffer = c.buffer[:0]
 
